@@ -18,10 +18,63 @@ pub fn points() -> &'static Points {
 /// cost of running (prog, env) with the real interpreter (used to build
 /// softfork guards that declare their exact cost)
 pub fn measure_cost(f: &Forest, prog: Id, env: Id, flags: ClvmFlags) -> Option<u64> {
+    measure_in_ext(f, prog, env, flags, None)
+}
+
+/// ChiaDialect, except that operators evaluated outside any guard see the
+/// operator set of softfork extension `ext` -- i.e. the program is measured
+/// exactly as if it were the body of a guard for that extension.
+struct MeasureDialect {
+    inner: ChiaDialect,
+    outer: clvmr::dialect::OperatorSet,
+}
+
+impl clvmr::dialect::Dialect for MeasureDialect {
+    fn quote_kw(&self) -> u32 {
+        self.inner.quote_kw()
+    }
+    fn apply_kw(&self) -> u32 {
+        self.inner.apply_kw()
+    }
+    fn softfork_kw(&self) -> u32 {
+        self.inner.softfork_kw()
+    }
+    fn softfork_extension(&self, ext: u32) -> clvmr::dialect::OperatorSet {
+        self.inner.softfork_extension(ext)
+    }
+    fn flags(&self) -> ClvmFlags {
+        self.inner.flags()
+    }
+    fn gc_candidate(&self, a: &Allocator, op: NodePtr) -> bool {
+        self.inner.gc_candidate(a, op)
+    }
+    fn op(
+        &self,
+        a: &mut Allocator,
+        o: NodePtr,
+        args: NodePtr,
+        max_cost: u64,
+        ext: clvmr::dialect::OperatorSet,
+    ) -> clvmr::reduction::Response {
+        let e = if ext == clvmr::dialect::OperatorSet::Default { self.outer } else { ext };
+        self.inner.op(a, o, args, max_cost, e)
+    }
+    fn allow_unknown_ops(&self) -> bool {
+        self.inner.allow_unknown_ops()
+    }
+}
+
+pub fn measure_in_ext(f: &Forest, prog: Id, env: Id, flags: ClvmFlags, ext: Option<u32>) -> Option<u64> {
+    use clvmr::dialect::Dialect;
     let mut a = Allocator::new();
     let p = f.materialize_auto(&mut a, prog).ok()?;
     let e = f.materialize_auto(&mut a, env).ok()?;
-    let d = ChiaDialect::new(flags);
+    let inner = ChiaDialect::new(flags & !ClvmFlags::LIMIT_SOFTFORK & !ClvmFlags::ENABLE_GC);
+    let outer = match ext {
+        Some(x) => inner.softfork_extension(x),
+        None => clvmr::dialect::OperatorSet::Default,
+    };
+    let d = MeasureDialect { inner, outer };
     match crate::outcome::guarded(|| run_program(&mut a, &d, p, e, 50_000_000)) {
         Ok(Ok(Reduction(c, _))) => Some(c),
         _ => None,
@@ -31,7 +84,7 @@ pub fn measure_cost(f: &Forest, prog: Id, env: Id, flags: ClvmFlags) -> Option<u
 /// generate a typed program (see gen::ProgGen)
 pub fn gen_program(f: &mut Forest, r: &mut Rng, cfg: ProgCfg) -> Prog {
     let base = cfg.flags & !ClvmFlags::ENABLE_GC;
-    let measure = move |f: &Forest, p: Id, e: Id, extra: ClvmFlags| measure_cost(f, p, e, base | extra);
+    let measure = move |f: &Forest, p: Id, e: Id, ext: Option<u32>| measure_in_ext(f, p, e, base, ext);
     let mut g = ProgGen::new(f, r, cfg, &measure, points());
     g.program()
 }
@@ -73,4 +126,49 @@ pub fn prog_json(f: &Forest, prog: Id, env: Id) -> serde_json::Value {
         "program": if plen < 200_000 { hex::encode(f.classic_bytes(prog)) } else { format!("<{plen} bytes>") },
         "env": if elen < 200_000 { hex::encode(f.classic_bytes(env)) } else { format!("<{elen} bytes>") },
     })
+}
+
+use crate::outcome::{Outcome, allocator_for, run_chia};
+
+/// run (prog, env) in a fresh allocator with the chosen atom representations
+pub fn run_case(
+    f: &Forest,
+    prog: Id,
+    env: Id,
+    flags: ClvmFlags,
+    budget: u64,
+    plan_seed: u64,
+    vary_16: u64,
+) -> Option<Outcome> {
+    let mut a = allocator_for(flags);
+    let (p, e) = materialize2(f, &mut a, prog, env, plan_seed, vary_16)?;
+    Some(run_chia(&mut a, flags, p, e, budget))
+}
+
+/// does any atom of the tree equal one of the given byte strings?
+pub fn contains_atom(f: &Forest, root: Id, any_of: &[&[u8]]) -> bool {
+    for id in f.reachable(root) {
+        if let Some(b) = f.atom_bytes(id)
+            && any_of.contains(&b)
+        {
+            return true;
+        }
+    }
+    false
+}
+
+pub fn case_key(f: &Forest, prog: Id, env: Id, extra: &[u8]) -> u64 {
+    let hp = f.tree_hash(prog);
+    let he = f.tree_hash(env);
+    let h = crate::model::sha256(&[&hp, &he, extra]);
+    u64::from_le_bytes(h[..8].try_into().unwrap())
+}
+
+/// events recorded by the verif hooks while `f` ran
+pub fn with_events<T>(f: impl FnOnce() -> T) -> (T, Vec<clvmr::verif_hooks::Event>) {
+    clvmr::verif_hooks::take_events();
+    clvmr::verif_hooks::set_recording(true);
+    let r = f();
+    clvmr::verif_hooks::set_recording(false);
+    (r, clvmr::verif_hooks::take_events())
 }
